@@ -36,6 +36,15 @@ func (e *Eng) Sources(v ssa.Value, throughCalls bool) map[ssa.Value]bool {
 					visit(r)
 				case *ssa.IndexAddr:
 					visit(r)
+				case *ssa.UnOp:
+					// the cell holds a slice: stores into its elements go through the loaded value
+					if rr := r.Referrers(); rr != nil && r.Op.String() == "*" {
+						for _, u := range *rr {
+							if ia, ok := u.(*ssa.IndexAddr); ok && ia.X == ssa.Value(r) {
+								visit(ia)
+							}
+						}
+					}
 				case *ssa.Slice:
 					// slice of an array cell: element stores were through IndexAddr
 				case *ssa.MakeClosure:
